@@ -41,7 +41,7 @@ CLAIMED = {
             "Trusts vf/symx, numpy/autoray structural ops; numpy interface; batch size 2; DiagonalQubitUnitary and "
             "templates outside reach (bounded stand-in / unverified).",
             "DESIGN.md 4 C07", "E2"),
-    "C08": ("proof",
+    "C08": ("other",
             "contract on qp.is_commuting (positive answer => the matrices commute on the joint register; Pauli words: answer == "
             "matrix commutation): the REAL function is called on real operator instances (float twins at two generic parameter "
             "points) for every pair of instances and every overlapping relative wire placement; each positive answer is "
@@ -182,7 +182,7 @@ CLAIMED = {
             "assumed; equality with the input up to the final permutation, the preceding decompose, measurement re-mapping and "
             "state_transposition are not covered.",
             "DESIGN.md 4 C19", "E1"),
-    "C20": ("proof",
+    "C20": ("other",
             "sidecar contracts on the bookkeeping core of transforms/split_non_commuting.py (_split_all_multi_term_obs_mps, "
             "_processing_fn_no_grouping, _processing_fn_with_grouping, _sum_terms) and the post-processing closure of "
             "split_to_single_terms.py: VCs from the real ASTs on enumerated tape / dictionary SHAPES with symbolic coefficients, "
@@ -197,7 +197,7 @@ CLAIMED = {
             "axioms; grouping strategies, tape construction, diagonalize_measurements / sign_expand / broadcast_expand / "
             "batch_* and execution are outside. F13 fixed in repo.",
             "DESIGN.md 4 C20", "E1"),
-    "C21": ("proof",
+    "C21": ("other",
             "sidecar contracts on ops/mid_measure measurement_value.py (MeasurementValue._merge, _apply, _transform_bin_op, "
             "__invert__, concretize, items, branches, __getitem__, postselected_items, the 14 binary dunders and 4 reflected "
             "ones): VCs from the real ASTs on operands of enumerated DEPENDENCY SHAPE with symbolic outcomes and scalars and "
@@ -229,7 +229,7 @@ CLAIMED = {
             "Operators are abstract records (map_wires, measure(reset=True) assumed); 'same results as a fresh wire per "
             "allocation' needs a simulator and is not covered. F26 fixed in repo.",
             "DESIGN.md 4 C22", "E1"),
-    "C23": ("proof",
+    "C23": ("other",
             "sidecar contracts on core/transforms/compile_pipeline.py (+ the real BoundTransform accessors): (A) __call_tapes, "
             "_batch_postprocessing and _apply_postprocessing_stack executed from their ASTs with UNINTERPRETED tape transforms "
             "and post-processing functions for every enumerated fan-out table; the returned post-processing function, applied "
@@ -276,7 +276,7 @@ CLAIMED = {
             "Partial correctness (decomposition DAG termination assumed); sign well-formedness of decompositions assumed for the "
             "wire statements; estimate()/queue plumbing and concrete library decompositions are not checked individually.",
             "DESIGN.md 4 C47", "E1"),
-    "C30": ("proof",
+    "C30": ("other",
             "sidecar contracts on measurements/counts.py (CountsMP.process_counts, _map_counts, _include_all_outcomes, "
             "_remove_unobserved_outcomes): VCs from the real ASTs on dictionaries with concrete outcome strings, SYMBOLIC integer "
             "counts and symbolic eigenvalues (string operations are run by the interpreter itself, symbolic-key dictionaries fork "
@@ -303,7 +303,7 @@ CLAIMED = {
             "centred are ASSUMED; floats as reals; the returned coefficients are only checked for the enumerated sizes within a "
             "normwise 1e-9 tolerance.",
             "DESIGN.md 4 C36", "E1"),
-    "C39": ("proof",
+    "C39": ("other",
             "contract on compute_vjp_single/_multi, compute_jvp_single/_multi, vjp, jvp, batch_vjp, batch_jvp (result == explicit "
             "contraction of the Jacobian with the cotangent / tangent, shape included): the REAL functions are executed on numpy "
             "object arrays of independent symbolic scalars (one symbol per Jacobian / cotangent / tangent entry; the tape-level "
@@ -315,7 +315,7 @@ CLAIMED = {
             "Size-bounded in shapes (dimensions <= 3), complete in values; numpy interface; classical_jacobian, other "
             "interfaces and gradient_fn itself are outside. F25 (batch_jvp reduction='extend' on scalar JVPs) open.",
             "DESIGN.md 4 C39", "E2"),
-    "C40": ("proof",
+    "C40": ("other",
             "sidecar contracts over the parameter-list view P on the real methods of core/qscript.py (par_info, trainable_params "
             "getter/setter, num_params, get_operation, get_parameters, data, bind_new_parameters, copy): VCs generated from the "
             "function ASTs on every run for circuits of enumerated SHAPES with every parameter value, operator identity and "
@@ -378,7 +378,7 @@ CLAIMED = {
             "hashable sort (string labels, numpy/jax inputs, select_random are outside); iteration order of python sets is "
             "left unconstrained, so results built from sets are specified up to order.",
             "DESIGN.md 4 C45", "E1"),
-    "C65": ("proof",
+    "C65": ("other",
             "sidecar contracts on concurrency/executors/native/{api,multiproc,serial}.py (VCs from the real ASTs, z3): "
             "PyNativeExec.submit/map/starmap, MPPoolExec.map and StdLibBackend executed for each of the four backends with the "
             "ExecBackendConfig literals read from the real constructors and the base-class helpers inlined; an UNINTERPRETED user "
